@@ -353,7 +353,7 @@ def _run_matching(case, network, mt, mi, ctx, cls, stats):
     net = case["net"]
     tracks = [gen.make_track([f[:3] for f in t["fixes"]], times_ms=t["times_ms"]) for t in mt["tracks"]]
     if mi % 3 == 1:
-        tracks = [gen.derive(t, (mi, k, mt["radius"]))[0] for k, t in enumerate(tracks)]
+        tracks = [gen.derive(t, (mi, k, mt["radius"]), allow=gen.DERIVE_HOWS + ["hidden_slots", "hidden_slots"])[0] for k, t in enumerate(tracks)]
     snaps = [_snapshot(t) for t in tracks]
     obs_ids = [[id(o) for o in t] for t in tracks]
     radius = mt["radius"]
